@@ -7,6 +7,7 @@ import (
 	"io"
 	"runtime"
 	"sync"
+	"sync/atomic"
 	"time"
 
 	cbackoff "github.com/cenkalti/backoff/v4"
@@ -385,7 +386,16 @@ func raceClients() []raceClient {
 		build: func(_ *xorshift) ([]func(int, *xorshift), func()) {
 			// one function list (with nil entries) owned by the client and passed by several goroutines at once:
 			// the library may read it, nothing more
-			shared := []ccall.CallConcurrentlyFunc{nil, func(context.Context) error { return nil }, nil, func(context.Context) error { return nil }, func(context.Context) error { return errRaceTok }}
+			// (consecutive calls share a list, so that a list is fresh when two goroutines pass it; the counter orders
+			// nothing that happens after it is read)
+			mkShared := func() []ccall.CallConcurrentlyFunc {
+				return []ccall.CallConcurrentlyFunc{nil, func(context.Context) error { return nil }, nil, func(context.Context) error { return nil }, func(context.Context) error { return errRaceTok }}
+			}
+			lists := make([][]ccall.CallConcurrentlyFunc, 512)
+			for i := range lists {
+				lists[i] = mkShared()
+			}
+			var listCtr atomic.Int64
 			mk := func(x *xorshift, n int) []ccall.CallConcurrentlyFunc {
 				fs := make([]ccall.CallConcurrentlyFunc, n)
 				for i := range fs {
@@ -409,7 +419,10 @@ func raceClients() []raceClient {
 				},
 				func(_ int, x *xorshift) { _ = ccall.CallConcurrently(bg, mk(x, 1)...) },
 				func(int, *xorshift) { _ = ccall.CallConcurrently(bg, nil, nil) },
-				func(int, *xorshift) { _ = ccall.CallConcurrently(bg, shared...) },
+				func(int, *xorshift) {
+					shared := lists[int(listCtr.Add(1)/3)%len(lists)]
+					_ = ccall.CallConcurrently(bg, shared...)
+				},
 			}, func() {}
 		}})
 
